@@ -235,6 +235,9 @@ pub fn embedding(name: &str) -> Embedding {
         // (E12) / overflow (E13); sums and differences themselves stay exact
         "E12" => Embedding { name: "E12", a: 0.0, b: p2(-600) },
         "E13" => Embedding { name: "E13", a: 0.0, b: p2(600) },
+        // the smallest normal numbers (|x| around 2^-1021 = 4.5e-308): a product of an observation
+        // with a weight below 1, or with a ratio of counts, is subnormal and loses bits (C17)
+        "E14" => Embedding { name: "E14", a: 0.0, b: p2(-1021) },
         "EM1" => Embedding { name: "EM1", a: 0.0, b: 1.0 },
         _ => panic!("unknown embedding {name}"),
     }
